@@ -139,14 +139,16 @@ class HarnessError(Exception):
     pass
 
 
-def parallel(rec: Rec, fn, args, procs: int | None = None):
+def parallel(rec: Rec, fn, args, procs: int | None = None, fresh: bool = False):
     """Run fn(rec_i, arg) for every arg in worker processes; merge into rec.
-    fn must be a module-level function (fork start method)."""
+    fn must be a module-level function (fork start method).
+    fresh=True: every arg gets a newly forked process (a copy of this parent, in which the code under test has
+    not been exercised), so that state kept by the code under test between calls starts cold for each arg."""
     args = list(args)
     if not args:
         return
     procs = min(procs or NCPU, len(args))
-    if procs <= 1 or os.environ.get("VX_SERIAL"):
+    if (procs <= 1 and not fresh) or os.environ.get("VX_SERIAL"):
         for a in args:
             out = _worker((fn, a))
             if "error" in out:
@@ -154,8 +156,8 @@ def parallel(rec: Rec, fn, args, procs: int | None = None):
             rec.merge(out)
         return
     ctx = mp.get_context("fork")
-    with ctx.Pool(procs, maxtasksperchild=None) as pool:
-        for out in pool.imap_unordered(_worker, [(fn, a) for a in args]):
+    with ctx.Pool(max(1, procs), maxtasksperchild=1 if fresh else None) as pool:
+        for out in pool.imap_unordered(_worker, [(fn, a) for a in args], chunksize=1):
             if "error" in out:
                 pool.terminate()
                 raise HarnessError(out["error"])
